@@ -16,7 +16,10 @@
 //                          operator== != < <= > >= (!= through the C++20 rewrite of ==).
 //   do NOT exist / do not compile on this tree (not part of the check): variant::swap member, get<I>/get<T> (throwing
 //                          accessors), unchecked_get<T>, visit<R>, valueless_by_exception, variant_npos, hash<variant>,
-//                          converting construction that needs the P0608 narrowing rule (variant<int,char>(1L) is ambiguous).
+//                          source types for which etl finds no unique alternative (e.g. variant<int,char>(1L)) - a source type is
+//                          compared only where both libraries accept it.
+// Exclusion tags understood by the generator (for known findings, none recorded at the time of writing):
+//   variant.assign_own_alternative (v = get<index>(v)), variant.converting_narrowing (long / unsigned / double sources).
 #include <etl/utility.hpp>
 #include <etl/variant.hpp>
 
@@ -212,6 +215,17 @@ struct Cfg {
                 auto xi0 = mx.v.index(), yi0 = my.v.index();
                 // re-map what is impossible here
                 if (code == C_CONV_PROMOTE && !std::is_same_v<EV, etl::variant<int, char>>) { code = C_CONV_R; }
+                // exclusion tags (only used if one of the two defects found here is recorded as a known finding instead of
+                // being repaired): narrow the generator to exactly the defective class
+                auto conv_src = op.a % 9;
+                if (code == A_CONV_ALIAS && vf::ctx().excluded("variant.assign_own_alternative")) {
+                    vf::excluded_known("variant.assign_own_alternative");
+                    code = A_SELF;
+                }
+                if ((code == C_CONV_OTHER || code == A_CONV_OTHER) && conv_src >= 6 && vf::ctx().excluded("variant.converting_narrowing")) {
+                    vf::excluded_known("variant.converting_narrowing");
+                    conv_src -= 6;
+                }
                 if (stats > 1) { vf::count((std::string("op.") + code_names[code]).c_str()); }
                 bool is_query = code >= FIRST_QUERY && code != OBSERVE;
                 if (is_query && (mx.masked || ((code == Q_VISIT2 || code == Q_VISIT3 || code == Q_REL) && my.masked))) { q_masked = true; }
@@ -354,7 +368,7 @@ struct Cfg {
                         }
                     };
                     enum Plain { plain_zero, plain_one, plain_two, plain_three }; // unscoped: promotes to int
-                    switch (op.a % 9) {
+                    switch (conv_src) {
                     case 0: one(static_cast<short>(v)); break;
                     case 1: one(static_cast<signed char>(v)); break;
                     case 2: one(static_cast<unsigned char>(v)); break;
